@@ -337,3 +337,70 @@ def sim_case(draw, sims=SIMS, nmax=25, labels=('int', 'perm', 'str', 'tuple'), f
         if draw(st.integers(0, 3)) == 0:
             case['ic_extra'] = [draw(st.sampled_from(sts)) for _ in range(draw(st.integers(1, 3)))]
     return case
+
+
+@st.composite
+def large_case(draw, sim):
+    """70-150 nodes with a hub of degree >= 69 and (when weighted) weights spread over six orders of magnitude or one
+    candidate 1500 times heavier than the rest: code paths that only switch on above a size or rejection-count threshold.
+    The graph is a pure function of a few drawn integers (too big to draw edge by edge)."""
+    case = draw(sim_case(sims=[sim], nmax=4))
+    n = draw(st.sampled_from([70, 100, 150]))
+    shape = draw(st.sampled_from(['star', 'double-star', 'complete', 'hub-ring', 'sparse+hub']))
+    R = random.Random(draw(st.integers(0, 10 ** 6)))
+    if shape == 'complete':
+        n = 70
+    idx = list(range(n))
+    if shape == 'star':
+        es = [(0, i) for i in idx[1:]]
+    elif shape == 'double-star':
+        es = [(0, 1)] + [(i % 2, i) for i in idx[2:]]
+    elif shape == 'complete':
+        es = [(i, j) for i in idx for j in idx[i + 1:]]
+    elif shape == 'hub-ring':
+        es = [(0, i) for i in idx[1:]] + [(i, i + 1) for i in idx[1:-1]]
+    else:
+        es = [(0, i) for i in idx[1:]] + [(i, j) for i in idx[1:] for j in idx[i + 1:] if R.random() < 3.0 / n]
+    R.shuffle(es)
+    lab = idx if draw(st.booleans()) else ['n%03d' % i for i in idx]
+    order = idx[:]
+    R.shuffle(order)
+    gc = {'nodes': [lab[i] for i in order], 'edges': [[lab[a], lab[b]] if R.random() < 0.5 else [lab[b], lab[a]] for a, b in es],
+          'ew': None, 'nw': None, 'directed': False}
+    wkind = draw(st.sampled_from(['one-heavy', 'few-heavy', 'few-heavy', 'log-uniform', 'plain']))
+
+    def weights(k):
+        if wkind == 'one-heavy':
+            ws = [1.0] * k
+            ws[R.randrange(k)] = 1500.0
+            return ws
+        if wkind == 'few-heavy':         # mean/max of order 1e-2 for the whole run: long rejection runs in every selection
+            ws = [R.uniform(0.5, 2.0) for _ in range(k)]
+            for j in R.sample(range(k), max(1, k // 50)):
+                ws[j] = 1.0e4
+            return ws
+        if wkind == 'log-uniform':
+            return [10 ** R.uniform(-3, 3) for _ in range(k)]
+        return [R.choice([0.5, 1.0, 2.0]) for _ in range(k)]
+    gc['ew'] = {'w': weights(len(es))}
+    gc['nw'] = {'rw': weights(n)}
+    case['gc'] = gc
+    case['ew'] = 'w' if sim in WEIGHTED and draw(st.booleans()) else None
+    case['nw'] = 'rw' if sim in WEIGHTED and draw(st.booleans()) else None
+    frac = draw(st.sampled_from([0.02, 0.1, 0.9]))
+    I0 = [u for u in gc['nodes'] if R.random() < frac] or [gc['nodes'][0]]
+    if draw(st.booleans()) and lab[0] not in I0:
+        I0.append(lab[0])                       # the hub starts infected
+    case['I0'], case['R0'] = I0, []
+    case['tau'] = draw(st.sampled_from([0.5, 2.0]))
+    case['gamma'] = draw(st.sampled_from([0.5, 1.0]))
+    if KIND[sim] != 'SIR' or case['tmax'] != 'inf':
+        case['tmax'] = case['tmin'] + (2 if sim in DISCRETE else 1)
+    if 'rule' in case:
+        case['rule'] = {'kind': 'exp', 'joint': case['rule'].get('joint', False)}
+    if 'IC' in case:
+        sts = statuses_of(case)
+        case['IC'] = [R.choice(sts) for _ in gc['nodes']]
+        case.pop('ic_extra', None)
+    case['large'] = [shape, wkind]
+    return case
